@@ -466,7 +466,10 @@ class MacroProgram(ElementProgram):
             REPEAT = skip
         else:
             defines = tal.parse_defines(clause)
-            assert len(defines) == 1
+            if len(defines) != 1:
+                raise LanguageError(
+                    "Must have exactly one variable definition "
+                    "in a repeat statement.", clause)
             context, names, expr = defines[0]
 
             expression = nodes.Value(expr)
